@@ -6,6 +6,7 @@ import (
 	"flag"
 	"fmt"
 	"os"
+	"syscall"
 	"time"
 
 	"vharness/vh"
@@ -93,18 +94,28 @@ func child(args []string) error {
 				ev, err := m.Exec(op)
 				ch <- res{ev, err}
 			}()
+			// A call "hangs" when it has not returned after the limit measured in CPU time of this
+			// process (a loop that does not end burns CPU; a process starved by other load does not),
+			// or after a generous wall-clock bound (a call that blocks for ever).
 			limit := 2*time.Second + time.Duration(inlen)*time.Microsecond
-			select {
-			case r := <-ch:
-				if r.err != nil {
-					return fmt.Errorf("history %d op %s: %w", idx, op.Op, r.err)
+			cpu0, wall0 := cpuTime(), time.Now()
+			done := false
+			for !done {
+				select {
+				case r := <-ch:
+					if r.err != nil {
+						return fmt.Errorf("history %d op %s: %w", idx, op.Op, r.err)
+					}
+					evs = append(evs, r.ev)
+					done = true
+				case <-time.After(200 * time.Millisecond):
+					if cpuTime()-cpu0 > limit || time.Since(wall0) > 30*limit {
+						// the call did not return: log what we have, mark the hang, give up this process
+						flush(fout, evs)
+						os.WriteFile(*out+".hang", []byte(fmt.Sprintf("%d %d %s", idx, m.NextID+1, op.Op)), 0o644)
+						os.Exit(3)
+					}
 				}
-				evs = append(evs, r.ev)
-			case <-time.After(limit):
-				// the call did not return: log what we have, mark the hang, give up this process
-				flush(fout, evs)
-				os.WriteFile(*out+".hang", []byte(fmt.Sprintf("%d %d %s", idx, m.NextID+1, op.Op)), 0o644)
-				os.Exit(3)
 			}
 		}
 		nextID = m.NextID
@@ -114,6 +125,15 @@ func child(args []string) error {
 	}
 	os.Remove(*out + ".progress")
 	return sc.Err()
+}
+
+// cpuTime: user+system CPU time consumed by this process so far.
+func cpuTime() time.Duration {
+	var ru syscall.Rusage
+	if err := syscall.Getrusage(syscall.RUSAGE_SELF, &ru); err != nil {
+		return 0
+	}
+	return time.Duration(ru.Utime.Nano() + ru.Stime.Nano())
 }
 
 func flush(f *os.File, evs []vh.Event) error {
